@@ -122,6 +122,16 @@ def check(repo: Repo, rep: Report) -> None:
                 rep.ob("F5-subject-map-fan-out", g_, f"{g_.qual}: `for {nd.target.id} in {short(nd.iter, 30)}` terminates the windows in {sorted(subj_maps)}", bool(subj_maps) and any(b in subj_maps for b in base),
                        f"{g_.qual} fans the terminal notification out over `{u(nd.iter)}`, which is not the map the window subjects live in: the open "
                        f"windows are left without a terminal notification")
+    # count-based windows / buffers: an omitted skip means skip = count
+    rep.rule("F6-skip-default", "window_with_count / buffer_with_count: `skip_ = skip if skip is not None else count`", floor=2)
+    for rel_, q_ in (("reactivex/operators/_windowwithcount.py", "window_with_count_"), ("reactivex/operators/_buffer.py", "buffer_with_count_")):
+        ff = repo.fn(rel_, q_)
+        pc, ps = ff.params[1], ff.params[2]
+        dd = [n_.value for n_ in ff.direct_nodes() if isinstance(n_, ast.Assign) and isinstance(n_.value, ast.IfExp)]
+        okd = any(u(v.orelse) == pc and u(v.body) == ps and ps in u(v.test) for v in dd) or any(u(v.body) == pc and u(v.orelse) == ps and ps in u(v.test) for v in dd)
+        rep.ob("F6-skip-default", ff, f"{q_}: `{short(dd[0], 50) if dd else '?'}`", okd,
+               f"{q_} does not default an omitted skip to count: windows / buffers of an operator called with count only do not tile the source "
+               f"(or the call fails on None)")
     # window_with_time_or_count: every rollover (by time, by count) starts a new window generation, and the first window has a timer
     rep.rule("T2-generation", "window_with_time_or_count: each rollover advances the window id before arming the next timer; the first window's timer is armed in subscribe", floor=3)
     wt_ = repo.fn("reactivex/operators/_windowwithtimeorcount.py", "window_with_time_or_count_.subscribe")
